@@ -219,3 +219,5 @@ def rule_guards(repo, rep):
 def check(repo, rep, tier):
   rule_ctor(repo, rep)
   rule_guards(repo, rep)
+  from . import c17
+  c17.rule_no_hyper_writes(repo, rep)
